@@ -57,7 +57,10 @@ CHECKS.update({
         'shape and IS the ordinary-kriging equations (list model <-> IsOKSol bridge); a returned result carries an exact '
         'certificate A x = b, satisfies IsOKSol (so all C08 theorems apply to the executable model), estimate = w.v and variance = w.g0 + mu; '
         'per-call bookkeeping for every outcome list: i-th variance belongs to i-th estimate, NaN exactly for failed '
-        'targets, counters = numbers of failures (induction over the target list). Tie: per-target correspondence - Lean '
+        'targets, counters = numbers of failures (induction over the target list); end to end (C07_target, C07_transform): one executable '
+        'function composes neighbour search, sub-system, exact solve and bookkeeping for a whole transform call, NaN exactly '
+        'when fewer than min_points observations are in range, otherwise the exact OK solution of the selected neighbourhood. '
+        'Tie: per-target correspondence and whole-call correspondence with the end-to-end model - Lean '
         'selects neighbours on the exact float distances and solves the system exactly over Q; z, sigma^2, NaN pattern and '
         'counters are compared with OrdinaryKriging.transform.',
    note='LAPACK solves are compared numerically (1e-12*cond); semivariances are taken from the implementation fitted '
@@ -75,7 +78,9 @@ CHECKS.update({
  'C09': dict(
    text='Theorems: one transform call over any target list is the pointwise map of the per-target computation (state is '
         're-initialised per call), hence independent of batch composition and ordering; sparse and dense neighbour search '
-        'coincide when the stored row entries are the in-range entries; all solutions of an invertible system coincide '
+        'coincide when the stored row entries are the in-range entries, and for ANY order of the stored entries the sparse selection is an admissible '
+        'nearest-N choice, equal to the dense one up to order when no two in-range observations are equidistant; the kriging result is invariant under '
+        'a relabelling of the selected neighbours; all solutions of an invertible system coincide '
         '(any solver). Tie: runs over solver x sparse x array/MetricSpace targets x partitions/permutations x repeated calls.',
    note='Agreement of the three LAPACK paths is numeric (1e-7 relative).',
    technique='Lean 4 proof (fold = map, Matrix uniqueness) + route-differential correspondence', design='6 C09'),
@@ -105,14 +110,16 @@ CHECKS.update({
    technique='Lean 4 proof (zipWith commutativity, index lemmas) + correspondence', design='6 C16'),
  'C17': dict(
    text='Theorems: np.delete keeps coordinates and values aligned, removes exactly the held-out point, which is not among '
-        'the remaining data; mse/mae scores depend on the estimable points only; counter-example for the pre-repair MAE '
+        'the remaining data; the leave-one-out prediction (composed with the C07 end-to-end model) does not depend on the value observed at the '
+        'held-out point and uses all remaining observations; mse/mae scores depend on the estimable points only; counter-example for the pre-repair MAE '
         '(D3). Tie: the seeded subset is reproduced, every leave-one-out residual recomputed through the real '
-        'OrdinaryKriging on the reduced set (a sample through the exact C07 model), scores through the model.',
+        'OrdinaryKriging on the reduced set (a sample through the exact C07 model), the whole jackknife through the end-to-end Lean model (exact solves), scores through the model.',
    note='NumPy RNG stream is external (reproducibility observed).',
    technique='Lean 4 proof (eraseIdx lemmas) + correspondence', design='6 C17'),
  'C20': dict(
    text='Theorems: squareform is symmetric with zero diagonal and holds the pair distance; neighbour search = N nearest '
-        'among the in-range candidates (as C07); closed-form bijection between the condensed order and the upper triangle; identical for sparse and dense rows; the double index remap of pair '
+        'among the in-range candidates (as C07); closed-form bijection between the condensed order and the upper triangle; identical for sparse and dense rows, for any storage order of the sparse row up to tie-breaking; '
+        'a truncated row stores exactly the entries with d <= max_dist with their values; the double index remap of pair '
         'sampling is injective for samples without replacement. Tie: MetricSpace.dists / diagonal / find_closest / '
         'ProbabalisticMetricSpace vs brute force and the model.',
    note='cKDTree and the NumPy RNG are external.',
